@@ -255,6 +255,8 @@ class Evaluator:
                 return ("int", e["v"])
             if t == "char":
                 return ("char", e["v"])
+            if t == "bytes" and isinstance(e.get("v"), list):
+                return ("bytes", tuple(e["v"]))
             raise Unrecognised("literal")
         if k == "local":
             if e["name"] not in env:
@@ -463,6 +465,8 @@ class Evaluator:
                 return base[1][e["name"]]
             if base is not None and base[0] == "ctor" and e["name"].isdigit() and int(e["name"]) + 2 < len(base):
                 return base[2 + int(e["name"])]
+            if base is not None and base[0] == "tuple" and e["name"].isdigit() and int(e["name"]) + 1 < len(base):
+                return base[1 + int(e["name"])]
             raise Unrecognised(f"read of untracked place {ps}")
         if k == "index":
             b_ = hir.simp(e["e"])
